@@ -282,6 +282,12 @@ def run(ctx):
     ctx.check(ok, "R4", scf, ae[0] if ae else bw, "SCF.backward", "affine_eq", "adjoint equation is z = grad_P + (dg/dP)^T z", "adjoint fixed-point equation changed")
 
     # ------------------------------------------------------------------ R5
+    check_unrolled_graph(ctx, scf, "R5")
+
+
+def check_unrolled_graph(ctx, scf, rid):
+    """unrolled (scf_backward=2) drivers keep the density / Fock history on the autograd graph (shared with C01: autograd forces of
+    non-variational quantities need the response of the converged density)"""
     for d in ("scf_forward0", "scf_forward1", "scf_forward2"):
         f = scf.func(d)
         arms = [i for i in ast.walk(f) if isinstance(i, ast.If) and norm(i.test) == "backward"]
@@ -303,7 +309,7 @@ def run(ctx):
                     elif isinstance(t, ast.Name) and t.id == "Pold":
                         if not (isinstance(st.value, (ast.Call, ast.BinOp))):
                             bad = st
-            ctx.check(bad is None, "R5", scf, bad or arm, d, bad or arm.test,
+            ctx.check(bad is None, rid, scf, bad or arm, d, bad or arm.test,
                       f"{d}: the backward=True arm rebinds P to a fresh tensor before any masked store",
                       f"{d}: with backward=True `{short(bad, 60) if bad else ''}` modifies the density in place: autograd cannot unroll through it")
         if n_arm == 0:
@@ -330,7 +336,7 @@ def run(ctx):
                         base = base.value
                     if isinstance(base, ast.Name) and base.id in STATE:
                         bad.append(st)
-        ctx.check(not bad, "R5", scf, bad[0] if bad else f, d, bad[0] if bad else "no_grad blocks",
+        ctx.check(not bad, rid, scf, bad[0] if bad else f, d, bad[0] if bad else "no_grad blocks",
                   f"{d}: the {len(blocks)} no_grad block(s) only compute mixing heuristics; Fock matrices, densities and energies are written outside them",
                   f"{d}: `{short(bad[0], 70) if bad else ''}` writes solver state under torch.no_grad(): with scf_backward=2 everything downstream "
                   f"(extrapolated Fock matrix, later densities) drops out of the autograd graph while forward values stay identical")
@@ -340,10 +346,12 @@ def run(ctx):
         if callee_attr(c) in ("scf_forward0", "scf_forward1", "scf_forward2"):
             kws = {k.arg: norm(k.value) for k in c.keywords}
             n2 += 1
-            ctx.check(kws.get("backward") == "True", "R5", scf, c, "scf_loop", f"{callee_attr(c)}(backward=True)", "scf_backward=2 calls the driver with backward=True",
+            ctx.check(kws.get("backward") == "True", rid, scf, c, "scf_loop", f"{callee_attr(c)}(backward=True)", "scf_backward=2 calls the driver with backward=True",
                       f"scf_backward=2 calls {callee_attr(c)} with backward={kws.get('backward')}")
     if n2 < 3:
         raise AnalysisError("scf_loop: unrolled driver calls not found")
+
+
 
 
 def funcs_names(funcs):
